@@ -245,7 +245,7 @@ def observe(inp):
     # end to end through validated(): a fixed-width cell is the value padded with blanks on either side
     obs["e2e"] = []
     if inp["fmt"] == "fixed" and f.length.items is not None:
-        width = f.length.lower_limit
+        width = int(f.length.lower_limit)
         for cell, direct in zip(inp["cells"], obs["cells"]):
             if cell == cell.strip() and len(cell) < width and direct[0] != "leak":
                 for padded in (cell.ljust(width), cell.rjust(width), " " + cell):
